@@ -199,7 +199,11 @@ func leanString(s string) string {
 
 var problems []string
 
-func broken(format string, a ...any) { problems = append(problems, fmt.Sprintf(format, a...)) }
+// broken records a tie that no longer checks; the report is tagged with the properties it
+// concerns ("[C07]", "[leaf:<Lean name>]", "[*]" = all), see facts.go.
+func broken(format string, a ...any) {
+	problems = append(problems, "["+currentOwner+"] "+fmt.Sprintf(format, a...))
+}
 
 func parseDir(fset *token.FileSet, dir string) []*ast.File {
 	ents, err := os.ReadDir(dir)
